@@ -3,6 +3,8 @@ import functools, json
 import stages as S
 import mm as M
 import layout as LY
+import ctor as CT
+import cmpstage as CM
 from stages import BASE, CONV, CONV_CORE, BORROW, UNIQ, COW, UNWRAP
 
 SIZED_MODULES = ["Triomphe.tla", "MC_Sized.tla"]
@@ -33,14 +35,23 @@ def mm(prop, tier, name, configs):
     return stage(M.mm_stage, prop, tier, name, configs)
 
 
+def tr(prop, tier, name, seed):
+    runs, nops = (200, 30) if tier == "quick" else (4000, 40)
+    return stage(M.trace_stage, prop, tier, name, seed, runs, nops)
+
+
 def c02(tier, seed):
     ops = ["clone", "read", "drop"]
     if tier == "quick":
         return [mm("C02", tier, "mm_clone_drop_q", [("c02_2x3", ops, 2, 3, 2, False), ("c02_3x2", ops, 3, 2, 1, False),
-                                                     ("c02_2x4", ops + ["count"], 2, 4, 1, False)])]
+                                                     ("c02_2x4", ops + ["count"], 2, 4, 1, False),
+                                                     ("c02_2x3u", ops + ["try_unwrap"], 2, 3, 2, False)]),
+                tr("C02", tier, "threads_q", seed)]
     return [mm("C02", tier, "mm_clone_drop_t", [("c02_2x3", ops, 2, 3, 2, False), ("c02_3x3", ops, 3, 3, 1, False),
                                                  ("c02_4x2", ops, 4, 2, 1, False), ("c02_2x5", ops, 2, 5, 2, False),
-                                                 ("c02_3x2h", ops + ["count"], 3, 2, 1, True)])]
+                                                 ("c02_3x2h", ops + ["count"], 3, 2, 1, True),
+                                                 ("c02_3x2u", ops + ["try_unwrap"], 3, 2, 1, False)]),
+            tr("C02", tier, "threads_t", seed)]
 
 
 def lay(prop, tier, name):
@@ -91,6 +102,25 @@ def c15(tier, seed):
             uninit("C15", tier, "uninit_walks_t", 5, 4, 5, simulate=(10000, 60, seed))]
 
 
+def c06(tier, seed):
+    hows = ("new", "newB", "from", "box", "boxB", "unique", "uniqueB")
+    return [stage(CT.ctor_stage, "C06", tier, "ctor_honest_" + tier[0], ["fhi", "thin", "collect", "vec", "slice", "str"], False),
+            sized("C06", tier, "sized_ctor_" + tier[0], BASE + ["Shareable", "IntoInner", "TryUnwrap"], 3 if tier == "quick" else 4, 3, 1, hows=hows)]
+
+
+def c07(tier, seed):
+    frames = BASE + CONV_CORE + ["Borrow", "Enter", "Exit", "MakeMut", "UnwrapOrClone"]
+    n = 3 if tier == "quick" else 4
+    return [stage(CT.ctor_stage, "C07", tier, "ctor_faults_" + tier[0], ["fhi", "thin", "collect", "vec", "observe"], True),
+            sized("C07", tier, "sized_panics_" + tier[0], frames, n, 2, 2 if tier == "thorough" else 1, hows=("new", "newB")),
+            thin("C07", tier, "thin_panics_" + tier[0], THIN_OPS, n, 2, 1, 1),
+            thin("C07", tier, "thin_walks_" + tier[0], THIN_OPS, 6, 4, 2, 3, simulate=((1000, 40, seed) if tier == "quick" else (20000, 80, seed)))]
+
+
+def c14(tier, seed):
+    return [stage(CM.compare_stage, "C14", tier, "compare_" + tier[0])]
+
+
 def c10(tier, seed):
     if tier == "quick":
         return [thin("C10", tier, "thin_q", THIN_OPS, 3, 2, 1, 1),
@@ -118,19 +148,21 @@ def c03(tier, seed):
     mops = ["clone", "read", "drop", "get_mut"]
     if tier == "quick":
         return [sized("C03", tier, "sized_uniq_q", ops, 3, 2, 1),
-                mm("C03", tier, "mm_uniq_q", [("c03_2x3", mops, 2, 3, 2, False), ("c03_3x2", mops, 3, 2, 1, False)])]
+                mm("C03", tier, "mm_uniq_q", [("c03_2x3", mops, 2, 3, 2, False), ("c03_3x2", mops, 3, 2, 1, False)]),
+                tr("C03", tier, "threads_q", seed)]
     return [sized("C03", tier, "sized_uniq_t", ops + ["Unsize", "IntoRawDyn", "FromRawDyn"], 4, 2, 1),
             mm("C03", tier, "mm_uniq_t", [("c03_2x4", mops, 2, 4, 2, False), ("c03_3x3", mops, 3, 3, 1, False),
-                                          ("c03_3x2h", mops, 3, 2, 1, True)])]
+                                          ("c03_3x2h", mops, 3, 2, 1, True)]),
+            tr("C03", tier, "threads_t", seed)]
 
 
 def c04(tier, seed):
     ops = BASE + CONV + BORROW + ["TryUnique", "MakeMut", "UnwrapOrClone"]
     if tier == "quick":
         return [sized("C04", tier, "sized_count_q", ops, 3, 2, 1), walks("C04", tier, seed),
-                thin("C04", tier, "thin_count_q", THIN_OPS, 3, 2, 1, 1)]
+                thin("C04", tier, "thin_count_q", THIN_OPS, 3, 2, 1, 1), tr("C04", tier, "threads_q", seed)]
     return [sized("C04", tier, "sized_count_t", ops, 4, 2, 2), walks("C04", tier, seed),
-            thin("C04", tier, "thin_count_t", THIN_OPS, 4, 2, 2, 2)]
+            thin("C04", tier, "thin_count_t", THIN_OPS, 4, 2, 2, 2), tr("C04", tier, "threads_t", seed)]
 
 
 def c08(tier, seed):
@@ -138,9 +170,11 @@ def c08(tier, seed):
     mops = ["clone", "read", "drop", "make_mut"]
     if tier == "quick":
         return [sized("C08", tier, "sized_cow_q", ops, 3, 3, 1, hows=("new", "newB")),
-                mm("C08", tier, "mm_cow_q", [("c08_2x3", mops, 2, 3, 2, False), ("c08_3x2", mops, 3, 2, 1, False)])]
+                mm("C08", tier, "mm_cow_q", [("c08_2x3", mops, 2, 3, 2, False), ("c08_3x2", mops, 3, 2, 1, False)]),
+                tr("C08", tier, "threads_q", seed)]
     return [sized("C08", tier, "sized_cow_t", ops, 4, 3, 1, hows=("new", "newB")),
-            mm("C08", tier, "mm_cow_t", [("c08_2x4", mops, 2, 4, 2, False), ("c08_3x3", mops, 3, 3, 1, False)])]
+            mm("C08", tier, "mm_cow_t", [("c08_2x4", mops, 2, 4, 2, False), ("c08_3x3", mops, 3, 3, 1, False)]),
+            tr("C08", tier, "threads_t", seed)]
 
 
 def c09(tier, seed):
@@ -148,9 +182,11 @@ def c09(tier, seed):
     mops = ["try_unwrap", "unwrap_or_clone", "drop", "get_mut", "clone"]
     if tier == "quick":
         return [sized("C09", tier, "sized_unwrap_q", ops, 3, 2, 1),
-                mm("C09", tier, "mm_unwrap_q", [("c09_2x3", mops, 2, 3, 2, False), ("c09_3x2", mops, 3, 2, 1, False)])]
+                mm("C09", tier, "mm_unwrap_q", [("c09_2x3", mops, 2, 3, 2, False), ("c09_3x2", mops, 3, 2, 1, False)]),
+                tr("C09", tier, "threads_q", seed)]
     return [sized("C09", tier, "sized_unwrap_t", ops, 4, 2, 1),
-            mm("C09", tier, "mm_unwrap_t", [("c09_2x4", mops, 2, 4, 2, False), ("c09_3x3", mops, 3, 3, 1, False)])]
+            mm("C09", tier, "mm_unwrap_t", [("c09_2x4", mops, 2, 4, 2, False), ("c09_3x3", mops, 3, 3, 1, False)]),
+            tr("C09", tier, "threads_t", seed)]
 
 
 def c12(tier, seed):
@@ -179,6 +215,10 @@ def any_replay(p, v):
         return S.replay_graph_violation(p, v)
     if v.get("key", "").startswith(("matrix:", "crash-in-matrix")):
         return LY.replay_layout(p, v)
+    if v.get("key", "").startswith(("ctor:", "allocfail:", "crash-in-ctor")):
+        return CT.replay_ctor(p, v)
+    if p == "C14":
+        return CM.replay_compare(p, v)
     return M.replay_mm(p, v)
 
 
@@ -193,6 +233,9 @@ PROPS = {
     "C11": {"level": "model_checking", "stages": c11, "assumptions": LAYOUT_ASSUME + GRAPH_ASSUME, "replay": any_replay},
     "C10": {"level": "model_checking", "stages": c10, "assumptions": GRAPH_ASSUME + LAYOUT_ASSUME, "replay": any_replay},
     "C15": {"level": "model_checking", "stages": c15, "assumptions": GRAPH_ASSUME, "replay": any_replay},
+    "C06": {"level": "model_checking", "stages": c06, "assumptions": GRAPH_ASSUME + ["Ctor.tla models each constructor as the sequence of calls, writes and checks the source performs; lengths beyond the fault bound are honest cases only"], "replay": any_replay},
+    "C07": {"level": "fault_enumeration", "stages": c07, "assumptions": GRAPH_ASSUME + ["faults: panic at the k-th next / Clone / callback exit / comparison-hash-format impl, misreported len/size_hint within +-2 and changing between calls, failing allocation 1..3 (child processes); a leak is tolerated only where Ctor.tla leaks the half-built block"], "replay": any_replay},
+    "C14": {"level": "model_checking", "stages": c14, "assumptions": ["the reference answers (what the values answer) are Compare.tla's ValEq / ValCmp: header, then slice lexicographically, then recorded length; the real value types' own impls are checked against that table, every handle kind against the values", "exhaustive over the small domain only (3 letters, slices up to the bound, recorded length equal or +1)"], "replay": any_replay},
     "C02": {"level": "model_checking", "stages": c02, "assumptions": MM_ASSUME, "replay": any_replay},
     "C01": {"level": "model_checking", "stages": c01, "assumptions": GRAPH_ASSUME, "replay": any_replay},
     "C03": {"level": "model_checking", "stages": c03, "assumptions": GRAPH_ASSUME + MM_ASSUME, "replay": any_replay},
